@@ -27,3 +27,104 @@ pub fn coq_rules(v: &[FilterDump]) -> String {
 pub fn coq_dump(v: &[(u64, Vec<FilterDump>)]) -> String {
     clist(v, |(k, b)| format!("({}, {})", cn(*k), clist(b, |f| cn(f.id))))
 }
+
+// ------------------------------------------------------------------ implementation-side helpers
+use adblock::filters::network::{NetworkFilter, NetworkFilterMaskHelper, NetworkMatchable};
+use adblock::regex_manager::RegexManager;
+use adblock::request::Request;
+use adblock::Engine;
+use std::collections::HashSet;
+
+/// The list-loading parse path (lists::parse_filter): what Engine::from_rules actually loads.
+pub fn parse_net(line: &str) -> Option<NetworkFilter> {
+    match adblock::lists::parse_filter(line, true, Default::default()) {
+        Ok(adblock::lists::ParsedFilter::Network(f)) => Some(f),
+        _ => None,
+    }
+}
+/// Per-rule matcher with a fresh regex manager (the cache is keyed by rule address).
+pub fn rule_matches(f: &NetworkFilter, req: &Request) -> bool {
+    let mut rm = RegexManager::default();
+    f.matches(req, &mut rm)
+}
+#[derive(Debug, Clone, PartialEq)]
+pub struct V {
+    pub matched: bool,
+    pub important: bool,
+    pub exception: bool,
+    pub filter: bool,
+}
+pub fn vjson(v: &V) -> serde_json::Value {
+    serde_json::json!({"matched": v.matched, "important": v.important, "exception": v.exception, "filter": v.filter})
+}
+pub fn category(f: &NetworkFilter) -> &'static str {
+    if f.is_csp() {
+        "csp"
+    } else if f.is_removeparam() {
+        "removeparam"
+    } else if f.is_generic_hide() {
+        "generichide"
+    } else if f.is_exception() {
+        "exception"
+    } else if f.is_important() {
+        "important"
+    } else if adblock::verif_hooks::filter_tag(f).is_some() && !f.is_redirect() {
+        "tagged"
+    } else if (f.is_redirect() && f.also_block_redirect()) || !f.is_redirect() {
+        "normal"
+    } else {
+        "none"
+    }
+}
+pub fn live_rules(rules: &[NetworkFilter]) -> Vec<&NetworkFilter> {
+    let bad: HashSet<u64> = rules.iter().filter(|f| f.is_badfilter()).map(|f| f.get_id_without_badfilter()).collect();
+    rules.iter().filter(|f| !f.is_badfilter() && !bad.contains(&f.get_id())).collect()
+}
+/// Rule-by-rule evaluation with the documented precedence (independent of the engine's index).
+pub fn spec_verdict(rules: &[NetworkFilter], tags: &HashSet<String>, req: &Request) -> V {
+    if !req.is_supported {
+        return V { matched: false, important: false, exception: false, filter: false };
+    }
+    let live = live_rules(rules);
+    let tag_ok = |f: &NetworkFilter, t: &HashSet<String>| adblock::verif_hooks::filter_tag(f).map(|x| t.contains(x)).unwrap_or(true);
+    let none = HashSet::new();
+    let imp = live.iter().any(|f| category(f) == "important" && tag_ok(f, tags) && rule_matches(f, req));
+    let blk = live.iter().any(|f| {
+        (category(f) == "tagged" && tag_ok(f, tags) && rule_matches(f, req))
+            || (category(f) == "normal" && tag_ok(f, &none) && rule_matches(f, req))
+    });
+    let exc = live.iter().any(|f| category(f) == "exception" && tag_ok(f, tags) && rule_matches(f, req));
+    V { matched: imp || (blk && !exc), important: imp, exception: !imp && blk && exc, filter: imp || blk }
+}
+pub fn engine_verdict(e: &Engine, req: &Request) -> V {
+    let r = e.check_network_request(req);
+    V { matched: r.matched, important: r.important, exception: r.exception.is_some(), filter: r.filter.is_some() }
+}
+pub fn build_engine(lines: &[String], tags: &[&str], optimize: bool) -> Engine {
+    let mut e = Engine::from_rules_parametrised(lines.iter(), Default::default(), true, optimize);
+    if !tags.is_empty() {
+        e.use_tags(tags);
+    }
+    e
+}
+/// A request that stays clear of the C01 known-finding classes: ASCII, no '*', http(s), with source.
+pub fn clean_request(r: &mut Rng, lines: &[String]) -> Option<(String, String, &'static str, Request)> {
+    let mut url = if r.chance(1, 2) && !lines.is_empty() { let k = r.below(lines.len()); gen::url_for(r, &lines[k]) } else { gen::url(r) };
+    url = url.replace('*', "-");
+    if !url.is_ascii() {
+        return None;
+    }
+    if url.starts_with("ws") {
+        url = url.replacen("wss", "https", 1).replacen("ws", "http", 1);
+    }
+    let mut src = gen::source_url(r);
+    if src.is_empty() {
+        src = "https://a.com/page".into();
+    }
+    let ty = gen::request_type(r);
+    let req = Request::new(&url, &src, ty).ok()?;
+    if !req.is_http && !req.is_https {
+        return None;
+    }
+    Some((url, src, ty, req))
+}
